@@ -222,3 +222,28 @@ Example C12_example_reshape :
     = Some (Mat 1 2 [VInt 1; VInt 255]).
 Proof. vm_compute. repeat split; reflexivity. Qed.
 Print Assumptions C12_example_reshape.
+
+(* ---- the allocations of the result buffers as they are in the source (regenerated table) ---------------------------
+   Gen/AllocArms.v is rewritten by translators/alloc_arms.py on every run of this check from every source file that calls
+   DMatrix::from_element(rows, cols, fill) — among them the result buffers of conversion (src/interpreter/src/stdlib/convert/*.rs).
+   Each of the ~90 arms computes the two extents from its operands; the statements below say that no arm allocates its result
+   transposed (first extent measuring the column axis or second the row axis), for EVERY arm, whether or not a generated case
+   reaches it with a non-square shape.  Definitions and the classifier of extents: Proofs/AllocArmsP.v. *)
+From MechV Require Import Model.SrcArms Gen.AllocArms Proofs.AllocArmsP.
+
+Theorem C12_alloc_source_fully_read : al_unrecognised = [].
+Proof. exact al_nothing_unrecognised. Qed.
+Print Assumptions C12_alloc_source_fully_read.
+
+(* every allocation site is classified and regular; the table is not empty (at least 80 sites) *)
+Theorem C12_allocations_regular : forallb alloc_ok al_sites = true /\ Nat.leb 80 (List.length al_sites) = true.
+Proof. exact al_allocations_regular. Qed.
+Print Assumptions C12_allocations_regular.
+
+(* for every site: the rows extent does not measure the column axis, the cols extent does not measure the row axis, and both
+   extents are of a shape the classifier knows *)
+Theorem C12_no_transposed_allocation :
+  forall a : alloc_site, In a al_sites ->
+    rows_axis a <> Ax1 /\ cols_axis a <> Ax0 /\ rows_axis a <> AxUnknown /\ cols_axis a <> AxUnknown.
+Proof. exact al_no_transposed_allocation. Qed.
+Print Assumptions C12_no_transposed_allocation.
